@@ -201,17 +201,16 @@ Proof.
       destruct (on_heartbeat me (b0 :: b')) as [[me1 out]|] eqn:Eh.
       2:{ exfalso. unfold on_heartbeat in Eh. rewrite Esup in Eh. cbn [negb] in Eh.
           destruct (hb_parse (b0 :: b')) as [[[ty pl] pd]|]; [|discriminate].
-          destruct (ty =? 1); [rewrite Erecv in Eh; cbn [negb] in Eh; destruct (zlen pd <? 16); discriminate|].
+          destruct (ty =? 1); [rewrite Erecv in Eh; cbn [negb] in Eh; destruct (zlen pd <? 16); [discriminate|];
+                               destruct (recsize (cf me) <? zlen (hb_write 2 pl (padding 16))); discriminate|].
           destruct ((ty =? 2) && hb_cb (cf me)); discriminate. }
       assert (Hout : forall x, In x out -> exists f, body x = MHB f /\ f <> []).
       { unfold on_heartbeat in Eh. rewrite Esup in Eh. cbn [negb] in Eh.
         destruct (hb_parse (b0 :: b')) as [[[ty pl] pd]|]; [|inversion Eh; subst; intros x []].
         destruct (ty =? 1).
-        - rewrite Erecv in Eh. cbn [negb] in Eh. destruct (zlen pd <? 16); inversion Eh; subst; [intros x []|].
-          intros x Hx. apply in_map_iff in Hx. destruct Hx as [f [Hf Hi]]. subst x. exists f. split; [reflexivity|].
-          unfold fragments in Hi. eapply chunks_nonempty; [| |exact Hi].
-          + destruct Hg1 as (_ & Hrs & _). lia.
-          + unfold hb_write. discriminate.
+        - rewrite Erecv in Eh. cbn [negb] in Eh. destruct (zlen pd <? 16); [inversion Eh; subst; intros x []|].
+          destruct (recsize (cf me) <? zlen (hb_write 2 pl (padding 16))); inversion Eh; subst; [intros x []|].
+          intros x [Hx|[]]. subst x. eexists. split; [reflexivity|]. unfold hb_write. discriminate.
         - destruct ((ty =? 2) && hb_cb (cf me)); inversion Eh; subst; intros x []. }
       apply on_heartbeat_spec in Eh. destruct Eh as ((E1 & E2 & E3) & Hau & _).
       assert (Hp1 : pre v13 me1 inc' wp).
@@ -422,18 +421,11 @@ Proof.
     destruct (closed (io (ea s))); cbn [fst]; [exact Hh|].
     destruct (negb (hb_sup (cf (ea s))) || negb (hb_send (cf (ea s)))) eqn:Eh; cbn [fst]; [exact Hh|].
     apply orb_false_iff in Eh. destruct Eh as [Eh _]. apply negb_false_iff in Eh.
-    assert (Hfr : forall r, In r (map (fun f => emit (ea s) (MHB f)) (fragments (recsize (cf (ea s))) (hb_write 1 payload (padding padlen)))) ->
-                  exists f, body r = MHB f /\ f <> []).
-    { intros r Hr. apply in_map_iff in Hr. destruct Hr as [f [Hf Hin]]. subst r. exists f. split; [reflexivity|].
-      unfold fragments in Hin. eapply chunks_nonempty; [| |exact Hin].
-      - destruct G1 as (_ & Hrs & _). lia.
-      - unfold hb_write. discriminate. }
+    destruct (recsize (cf (ea s)) <? zlen (hb_write 1 payload (padding padlen))); cbn [fst]; [exact Hh|].
     apply hsend; auto.
-    + apply scan_idle_all. intros r Hr. destruct (Hfr r Hr) as [f [Hf Hne]]. rewrite Hf. unfold scan1. cbn [Z.eqb].
-      destruct G1 as (_ & _ & _ & Hhs & _). destruct G2 as (_ & _ & _ & _ & Hhr & _).
-      rewrite <- Hhs, Eh. rewrite Hhr by (rewrite <- Hhs; exact Eh). destruct f; [congruence|reflexivity].
-    + unfold reqs. apply flat_nil. intros r Hr. destruct (Hfr r Hr) as [f [Hf _]]. rewrite Hf. reflexivity.
-    + unfold rctxs. apply flat_nil. intros r Hr. destruct (Hfr r Hr) as [f [Hf _]]. rewrite Hf. reflexivity.
+    cbn [scan emit body]. unfold scan1. cbn [Z.eqb].
+    destruct G1 as (_ & _ & _ & Hhs & _). destruct G2 as (_ & _ & _ & _ & Hhr & _).
+    rewrite <- Hhs, Eh. rewrite Hhr by (rewrite <- Hhs; exact Eh). reflexivity.
   - (* OTickets *)
     destruct (closed (io (ea s)) || negb (g13 s) || is_cl (cf (ea s))) eqn:Ec; cbn [fst]; [exact Hh|].
     apply orb_false_iff in Ec. destruct Ec as [Ec Ecl]. apply orb_false_iff in Ec. destruct Ec as [_ Ev]. apply negb_false_iff in Ev.
